@@ -181,6 +181,9 @@ func prepC16(p *C16Plan) {
 	if p.Peer.Challenge == "" {
 		p.Peer.Challenge = "1"
 	}
+	if strings.TrimSpace(p.Lib.Call) == "" || strings.ContainsAny(p.Lib.Call, " \t\r\n|") {
+		p.Lib.Call = "N0CALL"
+	}
 	// an auxiliary address is a non-empty token (a reduced plan may say otherwise)
 	var aux []string
 	for _, a := range p.Aux {
